@@ -131,9 +131,17 @@ def run_links(ctx, n, bindir):
             g.cleanup(d)
         # (b) the property's predicates directly on the written headers
         bad = o["bad"]
+        # A user-given location (--section-start / a script's `. = X`) that lands inside or behind a region wild has already laid out
+        # (headers at the image base, .relro_padding, an earlier section) gives overlapping sections: every predicate such a case
+        # violates is the recorded finding layout:backwards-location (GNU ld rejects these links with "section X overlaps").
+        user_loc = bool(case["secstart"] or case["script"])
+        overlap = any(k.split(":")[0] in ("mem-overlap", "load-overlap", "load-page-share") for k, _ in bad)
         for k, m in bad:
             ctx.cov["impl_oracle_failures"] += 1
-            ctx.violation(viol_key(k), f"{case['kind']}: {m}", dict(replay, violated=k, dir=keep))
+            key = viol_key(k)
+            if user_loc and overlap and key.startswith("elf:"):
+                key = "layout:backwards-location"
+            ctx.violation(key, f"{case['kind']}: {m}", dict(replay, violated=k, dir=keep))
         ctx.count("direct-check", "clean" if not [b for b in bad if viol_key(b[0]).startswith("elf:")] else "violations")
         # (c) kernel / loader acceptance
         rr = o["run"]
@@ -145,6 +153,9 @@ def run_links(ctx, n, bindir):
             elif rr[0] == -998:
                 ctx.count("native-run", "final-link-failed")
                 ctx.violation("run:final-link", f"{case['kind']}: {rr[2][:300]}", replay)
+            elif user_loc and overlap:
+                ctx.count("native-run", "failed:known-backwards-location")
+                ctx.violation("layout:backwards-location", f"{case['kind']}: overlapping image fails at run time (rc={rr[0]})", replay)
             else:
                 ctx.count("native-run", "failed")
                 ctx.violation("run:" + case["kind"], f"{case['kind']}: linked program fails at run time (rc={rr[0]}; exit code k+1 = section k has wrong "
